@@ -32,7 +32,39 @@ var faulters sync.Map // actor -> *faulter
 
 var installFaultHook sync.Once
 
+// InstallHook installs the executor's driver hook (fault injection + holds); idempotent.
+func InstallHook() { installFaultHook.Do(func() { sqlwrap.SetHook(faultHook) }) }
+
+// holds: actors (blocking pulls of the "blocked" scenario mode) whose further transactions are
+// parked at BEGIN until released, so that the steps running while the pull waits are observed
+// before the pull's own delivering transaction.
+type hold struct {
+	mu      sync.Mutex
+	holding bool
+	release chan struct{}
+}
+
+var holds sync.Map // actor -> *hold
+
+func holdHook(ev sqlwrap.Event) {
+	if ev.Kind != sqlwrap.Begin {
+		return
+	}
+	v, ok := holds.Load(ev.Actor)
+	if !ok {
+		return
+	}
+	h := v.(*hold)
+	h.mu.Lock()
+	holding, ch := h.holding, h.release
+	h.mu.Unlock()
+	if holding {
+		<-ch
+	}
+}
+
 func faultHook(ev sqlwrap.Event) error {
+	holdHook(ev)
 	switch ev.Kind {
 	case sqlwrap.Begin, sqlwrap.Exec, sqlwrap.Query, sqlwrap.Commit:
 	default:
@@ -143,7 +175,7 @@ func (a *awaiters) woken() []string {
 // attempt. It returns after the first attempt that is NOT hit (which has then
 // executed the operation for real and emitted its normal event).
 func (e *Exec) faultedAttempts(ctx context.Context, st Step) error {
-	installFaultHook.Do(func() { sqlwrap.SetHook(faultHook) })
+	InstallHook()
 	f := &faulter{mode: e.FaultMode}
 	faulters.Store(e.actor, f)
 	defer faulters.Delete(e.actor)
